@@ -214,6 +214,45 @@ func honestIssuance(g *Rng, kp *KeyPair, nattr int, blind []int, keyshare, witne
 			emit(o)
 		}
 	}
+	if !keyshare && len(blind) == 0 && !witness {
+		// a deviating issuer runs issuance honestly except for the exponent, which it picks itself:
+		// composite inside the interval, prime outside it. Equation and ProofS hold; the holder
+		// must refuse the credential.
+		lo := new(big.Int).Lsh(bi(1), pk.Params.Le-1)
+		hi := new(big.Int).Add(lo, new(big.Int).Lsh(bi(1), pk.Params.LePrime-1))
+		compositeIn := func() *big.Int {
+			for {
+				e := new(big.Int).Add(lo, g.bits(int(pk.Params.LePrime)-2))
+				e.SetBit(e, 0, 1)
+				if !e.ProbablyPrime(30) && new(big.Int).ModInverse(e, kp.sk.Order) != nil {
+					return e
+				}
+			}
+		}
+		for _, c := range []struct {
+			class string
+			e     *big.Int
+		}{
+			{"issuer-picks-composite-e-in-interval", compositeIn()},
+			{"issuer-picks-semiprime-e-in-interval", semiprimeIn(g, lo, hi)},
+			{"issuer-picks-prime-e-above-interval", nextPrime(new(big.Int).Add(hi, g.bits(40)), 1)},
+			{"issuer-picks-prime-e-below-interval", nextPrime(new(big.Int).Sub(lo, g.bits(40)), -1)},
+			{"issuer-picks-composite-e-above-interval", new(big.Int).Mul(nextPrime(g.bits(int(pk.Params.Le)/2+1), 1), nextPrime(g.bits(int(pk.Params.Le)/2+1), 1))},
+		} {
+			if c.e == nil {
+				continue
+			}
+			m2 := deviatingIssue(g, kp, context, commitMsg.U, attrs, nonce2, c.e)
+			if m2 == nil {
+				continue
+			}
+			o := cloneOp(op)
+			o["msg"] = issueMsgTree(m2)
+			o["class"], o["label"] = c.class, "rejected"
+			o["fkey"] = "C06/" + c.class
+			emit(o)
+		}
+	}
 	return &issuanceRun{kp, op, tree, op["label"].(string)}
 }
 
@@ -379,4 +418,49 @@ func emitIssuanceAlterations(g *Rng, run, prev *issuanceRun, emit func(Op)) {
 func mustGet(t any, p Path) any {
 	n, _ := getAt(t, p)
 	return n
+}
+
+// semiprimeIn: a product of two primes inside [lo, hi] (nil when none is found quickly).
+func semiprimeIn(g *Rng, lo, hi *big.Int) *big.Int {
+	half := lo.BitLen() / 2
+	for tries := 0; tries < 200; tries++ {
+		p := nextPrime(g.bits(half), 1)
+		q := new(big.Int).Div(lo, p)
+		q = nextPrime(q.Add(q, bi(1)), 1)
+		e := new(big.Int).Mul(p, q)
+		if e.Cmp(lo) >= 0 && e.Cmp(hi) <= 0 {
+			return e
+		}
+	}
+	return nil
+}
+
+// deviatingIssue: the issuer's second message with an exponent of the issuer's own choosing; the
+// signature equation holds for the holder's commitment and ProofS is a genuine proof of knowledge
+// of 1/e.
+func deviatingIssue(g *Rng, kp *KeyPair, context, U *big.Int, attrs []*big.Int, nonce2, e *big.Int) *gabi.IssueSignatureMessage {
+	pk := kp.pk
+	d := new(big.Int).ModInverse(e, kp.sk.Order)
+	if d == nil {
+		return nil
+	}
+	v := g.bits(int(pk.Params.Lv) - 1)
+	v.SetBit(v, int(pk.Params.Lv)-1, 1)
+	ms := append([]*big.Int{bi(0)}, attrs...)
+	num := new(big.Int).Exp(pk.S, v, pk.N)
+	num.Mul(num, gabi.VerifRepresentToBases(pk.R, ms, pk.N, pk.Params.Lm)).Mod(num, pk.N)
+	num.Mul(num, U).Mod(num, pk.N)
+	Q := new(big.Int).Mul(pk.Z, new(big.Int).ModInverse(num, pk.N))
+	Q.Mod(Q, pk.N)
+	A := new(big.Int).Exp(Q, d, pk.N)
+	r := new(big.Int).Mod(g.bits(kp.sk.Order.BitLen()+64), kp.sk.Order)
+	ACommit := new(big.Int).Exp(Q, r, pk.N)
+	c := gabi.VerifHashCommit([]*big.Int{context, Q, A, nonce2, ACommit}, false)
+	resp := new(big.Int).Mul(c, d)
+	resp.Sub(r, resp).Mod(resp, kp.sk.Order)
+	return &gabi.IssueSignatureMessage{
+		Signature: &gabi.CLSignature{A: A, E: e, V: v},
+		Proof:     &gabi.ProofS{C: c, EResponse: resp},
+		MIssuer:   map[int]*big.Int{},
+	}
 }
